@@ -182,14 +182,17 @@ class Ctx:
         consumed, total, nbad = int(m.group(1)), int(m.group(2)), int(m.group(3))
         mb = re.search(r'"BAD",\s*<<(.*?)>>\s*>>', out, re.S)
         bad = [int(x) for x in re.findall(r"\d+", mb.group(1))] if mb else []
+        badk = {}
+        for mk in re.finditer(r'<<\s*"BADK",\s*"(\w+)",\s*<<(.*?)>>\s*>>', out, re.S):
+            badk[mk.group(1)] = [int(x) for x in re.findall(r"\d+", mk.group(2))]
         if consumed != total:
             raise Inconclusive("trace spec %s consumed %d of %d events:\n%s" % (module, consumed, total, out[-3000:]))
-        accepted = nbad == 0
+        accepted = nbad == 0 and not any(v for k, v in badk.items() if k != "drift")
         if accepted and rc != 0:
             raise Inconclusive("trace accepted but TLC rc=%d:\n%s" % (rc, out[-3000:]))
         self.states += dist
         self.transitions += g
-        res = dict(module=module, accepted=accepted, consumed=consumed, total=total, bad=bad,
+        res = dict(module=module, accepted=accepted, consumed=consumed, total=total, bad=bad, badk=badk,
                    wall_s=round(dt, 1), distinct=dist)
         self.trace_runs.append(res)
         res["out"] = out
